@@ -67,7 +67,7 @@ def shard(method, seed, nstreams, tier, do_directed):
         if any(c[0] == 'C' for c in cmds):
             feat.add('has-copy')
         sched = [rnd.choice([1, 3, 64, 4096, 70000])] if rnd.random() < 0.5 else []
-        c = dech.Case(method, stream, len(exp), sched=sched, meta=(tag, feat, len(cmds)))
+        c = dech.Case(method, stream, len(exp), sched=sched, in_chunk=rnd.choice([0, 0, 0, 1, 3, 7]), meta=(tag, feat, len(cmds)))
         cases.append(c)
         expect.append(exp)
 
